@@ -255,7 +255,7 @@ func (c *Ctx) EXT(rule string) []report.Obligation {
 			// on every success path
 			okAll := true
 			for _, ret := range returnsOf(f) {
-				if isNilOrConst(retValue(ret, 2)) && !isNilOrConst(retValue(ret, 0)) && !prog.InstrDominates(rp[0], ret) {
+				if isNilOrConst(errRet(ret)) && !isNilOrConst(retValue(ret, 0)) && !prog.InstrDominates(rp[0], ret) {
 					okAll = false
 				}
 			}
